@@ -164,6 +164,14 @@ func main() {
 	for _, s := range []string{`"𝄞"`, `"𐀀􏿿"`, `𝄞😀`, `4.9e-324`, `1.7976931348623157e308`, ` true`, `null`, `[[[[[[[[[[1]]]]]]]]]]`, `{"a":{"a":{"a":{"a":{"a":1}}}}}`, "\xff\xfeabc"} {
 		docs = append(docs, []byte(s))
 	}
+	// every error path too (an error value or message that carries per-call state must not be shared): out-of-range numbers
+	// of several spellings, malformed values of every kind, depth-limit errors, integer overflows
+	for _, s := range []string{`1e400`, `-2.5e999`, `1.7976931348623159e308`, `[1e999]`, `{"a":-1e400}`, `123456789012345678901234567890e400`, `9e99999`,
+		`[`, `{`, `{"a"`, `{"a":`, `[1,`, `"abc`, `"\x"`, `"\ud800"`, `tru`, `nul`, `-`, `1.`, `1e`, `x`, ``, ` `, `[1 2]`, `{"a" 1}`, `[1,]`, `{,}`,
+		`18446744073709551616`, `-9223372036854775809`, `99999999999999999999999`, "\"\x01\"", `{"a":[1,{"b":[2,{"c":` } {
+		docs = append(docs, []byte(s))
+	}
+	docs = append(docs, []byte(strings.Repeat("[", 10050)), []byte(strings.Repeat(`{"a":`, 10050)))
 	var tasks []task
 	for i := 0; i < *nTasks; i++ {
 		tasks = append(tasks, task{op: r.Intn(nOps), data: docs[r.Intn(len(docs))]})
